@@ -149,8 +149,9 @@ func (g *gen) path(v val, del bool) []string {
 			if g.p(0.25) {
 				ix = fmt.Sprint(i - len(c))
 			}
-			if g.p(0.06) {
-				ix = fmt.Sprint(len(c) + 1)
+			if g.p(0.08) {
+				// just past the end (exactly len) or further
+				ix = fmt.Sprint(len(c) + g.n(2))
 			}
 			p = append(p, ix)
 			cur = c[i]
